@@ -105,37 +105,17 @@ Proof.
     apply (A3 p p' d); assumption.
 Qed.
 
-(* all listed children of a level, taken together, are pairwise distinct *)
-Lemma all_children_nodup pl :
-  wf_level pl -> child_lists_nodup pl ->
-  (forall p p' c, lists pl p c -> lists pl p' c -> p = p') ->
-  NoDup (concat (map snd pl)).
+(* child lists that repeat no name stay so when a level is merged away: the merged lists are the
+   grand-children (for the leaf level: the rows of the new leaves) *)
+Lemma merge_flat_nodup pl dl : flat_nodup pl -> flat_nodup dl -> flat_nodup (merge_level pl dl).
 Proof.
-  unfold wf_level. induction pl as [|[q cs] t IH]; intros Wp N U; cbn; [constructor|].
-  cbn in Wp. inversion Wp as [|? ? Wq Wt]; subst. apply NoDup_app.
-  - apply (N q cs). left. reflexivity.
-  - apply IH; [exact Wt | intros p cs' Hin; apply (N p cs'); right; exact Hin|].
-    intros p p' c Hl Hl'. apply (U p p' c); apply lists_cons; right; assumption.
-  - intros c Hc Hc'. apply in_concat in Hc'. destruct Hc' as (cs' & Hcs' & Hc').
-    apply in_map_iff in Hcs'. destruct Hcs' as ([p cs''] & E' & Hp). cbn in E'. subst cs''.
-    assert (q = p).
-    { apply (U q p c); [apply lists_cons; left; split; [reflexivity | exact Hc]|].
-      apply lists_cons. right. exists cs'. split; assumption. }
-    subst p. apply Wq. apply (in_map fst) in Hp. exact Hp.
-Qed.
-
-(* rows of the new leaves when the leaf level is merged away *)
-Lemma merge_rows_nodup pl dl :
-  strict_pair pl dl -> wf_level pl -> child_lists_nodup pl -> NoDup (concat (map snd dl)) ->
-  NoDup (concat (map snd (merge_level pl dl))).
-Proof.
-  intros (A1 & A2 & A3) Wp N R.
+  unfold flat_nodup. intros P R.
   destruct (concat_nodup_entries dl R) as (R1 & R2).
   assert (E : concat (map snd (merge_level pl dl)) = flat_map (children_of dl) (concat (map snd pl))).
   { unfold merge_level. rewrite map_map. cbn [snd]. clear. induction pl as [|[q cs] t IH]; cbn; [reflexivity|].
     rewrite flat_map_app, IH. reflexivity. }
   rewrite E. apply NoDup_flat_map.
-  - apply all_children_nodup; assumption.
+  - exact P.
   - intros c _. unfold children_of. destruct (zassoc c dl) as [rs|] eqn:Ea; [|constructor].
     apply (R1 c rs). apply zassoc_in. exact Ea.
   - intros c c' _ _ Hne r Hr Hr'. apply Hne.
@@ -235,18 +215,20 @@ Proof.
       rewrite !validate_pairs_cons in V2b. rewrite !andb_true_iff in V2b. destruct V2b as (B1 & B2 & B3).
       rewrite validate_pairs_cons. rewrite !andb_true_iff. split; [|split; [|exact B3]].
       * rewrite <- V2a. apply validate_pairs_last_nodes. apply merge_nodes.
-      * apply validate_pair_iff. apply merge_strict; [apply validate_pair_iff; exact B1 | apply validate_pair_iff; exact B2|].
-        apply wf_nth. exact W.
+      * apply validate_pair_iff. split.
+        -- apply merge_strict; [apply validate_pair_strict; exact B1 | apply validate_pair_strict; exact B2|].
+           apply wf_nth. exact W.
+        -- apply merge_flat_nodup; [apply (validate_pair_flat _ _ B1) | apply (validate_pair_flat _ _ B2)].
     + unfold leaf_rows in *. subst pl dl.
       etransitivity; [|exact V3]. do 3 f_equal. exact LL.
 Qed.
 
-(* closure: dropping the leaf level needs repetition-free child lists one level up *)
+(* closure: dropping the leaf level (the child lists one level up repeat no name, so the rows
+   inherited by the new leaves repeat none either) *)
 Lemma raw_drop_leaf_validate t : validate t = true -> wf t -> (2 <= length t)%nat ->
-  child_lists_nodup (nth (length t - 2) t []) ->
   validate (raw_drop t (length t - 1)) = true.
 Proof.
-  intros V W H N. replace (length t - 1)%nat with (S (length t - 2)) by lia.
+  intros V W H. replace (length t - 1)%nat with (S (length t - 2)) by lia.
   remember (length t - 2)%nat as pi eqn:Epi.
   assert (Hpi : (S pi < length t)%nat) by lia.
   destruct (raw_drop_split pi t Hpi) as (f & r & E & Hl & ->).
@@ -260,9 +242,8 @@ Proof.
   - rewrite <- V2a. apply validate_pairs_last_nodes. apply merge_nodes.
   - apply znodup_b_spec. apply znodup_b_spec in V3. unfold leaf_rows, leaf_level in *.
     rewrite last_last. rewrite E in V3. rewrite last_app_cons in V3. cbn [last] in V3.
-    apply merge_rows_nodup; [| | exact N | exact V3].
-    + apply validate_pair_iff. cbn in V2b. rewrite andb_true_r in V2b. exact V2b.
-    + apply wf_nth. exact W.
+    apply merge_flat_nodup; [|exact V3].
+    apply (validate_pair_flat pl dl). cbn in V2b. rewrite andb_true_r in V2b. exact V2b.
 Qed.
 
 (* ------------------------------------------------------------------ ancestors in the reduced tree *)
@@ -357,13 +338,12 @@ Proof.
 Qed.
 
 Theorem drop_leaf_level_accepted t : validate t = true -> wf t -> (2 <= length t)%nat ->
-  child_lists_nodup (nth (length t - 2) t []) ->
   drop_leaf_level t = TOk (raw_drop t (length t - 1)).
 Proof.
-  intros V W H N. unfold drop_leaf_level, drop_level_gen.
+  intros V W H. unfold drop_leaf_level, drop_level_gen.
   destruct (Nat.eqb (length t) 1) eqn:E1; [apply Nat.eqb_eq in E1; lia|].
   destruct (Nat.leb (length t) (length t - 1)) eqn:E2; [apply Nat.leb_le in E2; lia|].
-  cbn [negb andb]. pose proof (raw_drop_leaf_validate t V W H N) as V'.
+  cbn [negb andb]. pose proof (raw_drop_leaf_validate t V W H) as V'.
   assert (G : mk_tree (raw_drop t (length t - 1)) = TOk (raw_drop t (length t - 1)))
     by (unfold mk_tree; rewrite V'; reflexivity).
   destruct (length t - 1)%nat as [|pi] eqn:E; [lia|]. exact G.
